@@ -14,6 +14,7 @@ import Mathlib.Tactic.Ring
 import Mathlib.Tactic.Linarith
 import Mathlib.Tactic.FieldSimp
 import Mathlib.Algebra.Order.Field.Rat
+import CBV.Gen.TC15
 
 namespace CBV.C15
 open CBV
